@@ -141,7 +141,7 @@ func (w *World) compare(in ssa.Instruction, op token.Token, x, y *Int) *Int {
 		}
 	}
 	d := w.mkInt(x.F().Sub(y.F()), ptrItv(x.R.Sub(y.R))).R // range of x - y
-	var res int                                         // 1 true, -1 false
+	var res int                                            // 1 true, -1 false
 	switch op {
 	case token.EQL, token.NEQ:
 		if d.Lo.Sign() > 0 || d.Hi.Sign() < 0 {
